@@ -146,7 +146,29 @@ def build():
         if v == 'GEN':
             return (i for i in range(3))
         return v
-    return Application([('/basic', ep, render_basic), ('/strict', ep, render_json), ('/dev', ep, render_json_dev),
+    # the same endpoint in the Python shapes user code comes in (the HTML table view shows the endpoint's docstring)
+    def ep1():
+        """One-line docstring."""
+        return ep()
+
+    def ep2():
+        """First line of a docstring,
+
+        followed by more <b>text</b> & a link http://example.com/x?y=1
+        """
+        return ep()
+
+    class Obj(object):
+        """Class docstring of a callable object."""
+        def method(self):
+            """Bound method, one line."""
+            return ep()
+
+        def __call__(self):
+            return ep()
+    return Application([('/basic', ep, render_basic), ('/basic1', ep1, render_basic), ('/basic2', ep2, render_basic),
+                        ('/basic3', Obj().method, render_basic), ('/basic4', Obj(), render_basic),
+                        ('/strict', ep, render_json), ('/dev', ep, render_json_dev),
                         ('/stream_dev', ep, JSONRender(streaming=True, dev_mode=True)),
                         ('/stream', ep, JSONRender(streaming=True)),
                         ('/jsonp_dev', ep, JSONPRender(dev_mode=True))])
@@ -216,7 +238,7 @@ def check(run):
         for _rep in range(reps):
             for vi, v in enumerate(values_for(case['c'], rng)):
                 Holder.value = v
-                st, label, body = fetch(app, '/basic', case['fmt'], case['acc'])
+                st, label, body = fetch(app, ('/basic', '/basic1', '/basic2', '/basic3', '/basic4')[tid % 5], case['fmt'], case['acc'])
                 tid += 1
                 o = project(v, case['c'], st, label, body)
                 o.update({'tid': tid, 'kind': 'basic', 'c': case['c'], 'fmt': case['fmt'], 'acc': case['acc'], '_v': repr(v)[:200], '_vi': vi})
